@@ -94,6 +94,21 @@ class World:
             if self.kind == 'components':
                 return False
             self.reg[n].rebuild()
+        elif t == 'reinit':
+            # Components.__init__ doubles as "reset this registry" (the library's
+            # own test clean-up does that): contents go, the bases are given again
+            if self.kind != 'components':
+                return False
+            if any(n in bs for bs in self.bases.values()):
+                # re-initialising a registry that others list as a base leaves
+                # them attached to its discarded adapter/utility registries; that
+                # use of __init__ is outside what the library supports
+                return False
+            self.reg[n].__init__(n, tuple(self.reg[b] for b in self.bases[n]))
+            self.regd.discard(n)
+            self.regd2.discard(n)
+            if n in self.subs:
+                self.subs.remove(n)
         elif t == 'look':
             r = self.areg(n)
             r.lookup([self.R1], self.P)
@@ -250,6 +265,8 @@ def all_ops(cfg):
         ops += [('reg', n), ('unreg', n), ('sub', n), ('unsub', n), ('look', n)]
         if cfg.get('kind') != 'components':
             ops.append(('rebuild', n))
+        else:
+            ops.append(('reinit', n))
         if cfg.get('pair'):
             ops += [('reg2', n), ('unreg2', n)]
     return ops
